@@ -1,6 +1,8 @@
 import P0f.LogicOk.Uptime
 import P0f.LogicOk.RoundFrequency
 import P0f.Props.C13
+import P0f.Generated.Logic.WindowMultiplier
+import P0f.Generated.Logic.TcpSignaturesMatch
 /-
   No ZeroDivisionError in the uptime path (C04, C13): the division-safety companions the translator prints next to
   `fingerprint_uptime` and `Uptime.__post_init__` (same control skeleton, `false` exactly where a division is reached with a zero
@@ -42,17 +44,64 @@ theorem gen_uptimePostInit_divok (ts : Nat) (raw : Q) (h : 0 ≤ Q.trunc raw) : 
 
 /-- **C04 / C13: `fingerprint_uptime` never raises ZeroDivisionError** - for every packet pair, clock and threshold set of the
     documented domain, every division the printed function reaches (`… / ms_diff`, and through `Uptime(...)` the divisions by
-    the rounded frequency) has a non-zero divisor.  (`max_timestamp_scale / timestamp_grace` sits inside an `and` chain and
-    is not covered by the companion; its divisor is the option `timestamp_grace ≥ 1` of the domain.) -/
+    the rounded frequency) has a non-zero divisor.  (`max_timestamp_scale / timestamp_grace` sits inside an `and` chain: the companion
+    checks it under the conjuncts before it.) -/
 theorem gen_fingerprintUptime_divok (o : UpOpts) (hD : o.Dom) (frag : Bool) (t a b : Nat) (now rcv : Int) :
     Gen.fingerprintUptime_divok o frag t a b now rcv = true := by
   first
   | exact rfl
   | (unfold Gen.fingerprintUptime_divok
      have hw := hD.wait
+     have hg := hD.grace
      have fb : ∀ (ts : Nat) (r : Q), Q.le (Q.mk (o.minScaleN : Int) o.minScaleD) r = true → Gen.uptimePostInit_divok ts r = true :=
        fun ts r h => gen_uptimePostInit_divok ts r (trunc_nonneg_of_min o hD r h)
      simp only [isZero_ofInt]
      grind (splits := 60))
+
+
+theorem any_ne_and_eq {α : Type} (l : List α) (f : α → Int) (g : α → Bool) :
+    (List.any l fun x => ((f x != 0) && g x) && (f x == 0)) = false := by
+  induction l with
+  | nil => rfl
+  | cons a t ih =>
+    simp only [List.any_cons, ih, Bool.or_false]
+    by_cases h : f a = 0 <;> simp [h]
+
+theorem any_ne_and_eq' {α : Type} (l : List α) (f : α → Int) :
+    (List.any l fun x => (f x != 0) && (f x == 0)) = false := by
+  have := any_ne_and_eq l f (fun _ => true)
+  simpa using this
+
+theorem firstHit_const {α β : Type} (l : List α) (p : α → Bool) (b : β) : firstHit l p (fun _ => b) b = b := by
+  unfold firstHit
+  cases l.find? p <;> rfl
+
+/-- **`calculate_window_multiplier` never divides by zero**: every candidate divisor is tested for truth before `window % div`
+    and `window // div` (for every packet signature, `syn_mss = 12` included, where the candidate `syn_mss - 12` is 0) -/
+theorem gen_windowMult_divok (p : WIn) : Gen.windowMult_divok p = true := by
+  first
+  | exact rfl
+  | (unfold Gen.windowMult_divok
+     simp only [any_ne_and_eq, any_ne_and_eq', Bool.false_eq_true, if_false, firstHit_const]
+     first
+     | rfl
+     | (simp only [apply_ite (Sum.elim _ _), Sum.elim_inr, Sum.elim_inl, ite_self])
+     | grind (splits := 40))
+
+/-- **`tcp_signatures_match` never divides by zero** on a signature whose `%n` window has a non-zero modulus (what
+    `_parse_window` guarantees, `parseWindow_range`: 1 … 65535) -/
+theorem gen_tcpSignaturesMatch_divok (s : Sig) (p : PSig) (maxDist : Int) (h : s.wtype = WinType.mod → s.wsize ≠ 0) :
+    Gen.tcpSignaturesMatch_divok s p maxDist = true := by
+  first
+  | exact rfl
+  | (unfold Gen.tcpSignaturesMatch_divok
+     by_cases hm : s.wtype = WinType.mod
+     · have := h hm
+       have e : ((((s.wsize : Nat) : Int)) == 0) = false := by simp; omega
+       simp only [e, Bool.and_false, Bool.false_eq_true, if_false]
+       grind (splits := 80)
+     · have e : (s.wtype == WinType.mod) = false := by simpa using hm
+       simp only [e, Bool.and_false, Bool.false_and, Bool.false_eq_true, if_false]
+       grind (splits := 80))
 
 end P0f
